@@ -30,12 +30,15 @@ def vet(d):
 
 def try_check(patch, prop, tier="quick"):
     t0 = time.time()
-    r = sh("%s/tools/try_mutant.sh %s %s %s" % (VERIF, patch, prop, tier))
+    # the change is applied to a scratch worktree of /repo's HEAD and the registered check runs against that tree
+    # (tools/try_mutant_wt.sh); tools/try_mutant.sh does the same on /repo's own working tree, one at a time
+    r = sh("%s/tools/try_mutant_wt.sh %s %s %s" % (VERIF, patch, prop, tier))
     keys = re.findall(r"violation key: (.*)", r.stdout)
     m = re.search(r"try_mutant: \S+ rc=(\d+)", r.stdout)
     rc = int(m.group(1)) if m else -1
     return {"check": prop, "tier": tier, "exit": rc, "caught": rc == 1, "violation_keys": keys[:8],
-            "wall_s": round(time.time() - t0, 1)}
+            "wall_s": round(time.time() - t0, 1),
+            "how": "tools/try_mutant_wt.sh (patch applied to a scratch worktree of /repo HEAD, check run with VERIF_REPO pointing at it)"}
 
 
 def add(args):
@@ -84,12 +87,14 @@ def add(args):
 
 
 def rerun(ids):
+    import concurrent.futures
     base = os.path.join(VERIF, "seeded")
     ids = ids or sorted(os.listdir(base))
-    for sid in ids:
+
+    def one(sid):
         mp = os.path.join(base, sid, "meta.json")
         if not os.path.exists(mp):
-            continue
+            return sid, None
         meta = json.load(open(mp))
         checks = [r["check"] for r in meta.get("checks_run", [])] or [meta["breaks_property"]]
         results = [try_check(os.path.join(base, sid, "patch.diff"), c) for c in checks]
@@ -98,7 +103,12 @@ def rerun(ids):
         with open(mp, "w") as f:
             json.dump(meta, f, indent=1)
             f.write("\n")
-        print("%s: caught_by=%s" % (sid, meta["caught_by"]))
+        return sid, meta
+    with concurrent.futures.ThreadPoolExecutor(max_workers=int(os.environ.get("MUTANT_JOBS", "4"))) as ex:
+        for sid, meta in ex.map(one, ids):
+            if meta:
+                missed = [r["check"] + ("(rc=%d)" % r["exit"]) for r in meta["checks_run"] if not r["caught"]]
+                print("%s: caught_by=%s%s" % (sid, meta["caught_by"], ("  NOT caught by " + ",".join(missed)) if missed else ""), flush=True)
     return 0
 
 
